@@ -160,13 +160,14 @@ def extra_probes(rng, recs, delim, upool=(), n=10):
 
 def hazard_oplists(pid, seed, n):
     """random_oplists over the hazard pools, on a random stream of its own."""
-    global P_ATOMS, U_ROOTS, U_STEPS, IDENTS
-    saved = (P_ATOMS, U_ROOTS, U_STEPS, IDENTS)
+    global P_ATOMS, U_ROOTS, U_STEPS, IDENTS, DELIMS
+    saved = (P_ATOMS, U_ROOTS, U_STEPS, IDENTS, DELIMS)
     P_ATOMS, U_ROOTS, U_STEPS, IDENTS = HAZ_P_ATOMS, HAZ_U_ROOTS, HAZ_U_STEPS, HAZ_IDENTS
+    DELIMS = [":", ":", "::", "/", "|", "_", "-:", "%", "%%", "%3A", "{}", "\\", "$", ".", "*", "+"]     # characters that mean something to %-formatting, str.format, re
     try:
         return random_oplists(pid, random.Random(seed * 31 + 977 + int(pid[1:])), n)
     finally:
-        P_ATOMS, U_ROOTS, U_STEPS, IDENTS = saved
+        P_ATOMS, U_ROOTS, U_STEPS, IDENTS, DELIMS = saved
 
 
 def big_records(n, tag="big"):
